@@ -5,6 +5,7 @@ import (
 	"io"
 	"os"
 	"regexp"
+	"sort"
 	"strings"
 
 	"github.com/tsawler/tabula/core"
@@ -496,9 +497,19 @@ func (r *Reader) resolveDeep(obj core.Object, done map[core.IndirectRef]core.Obj
 		return result, nil
 
 	case core.Dict:
+		// The entries are visited in the order of their keys. What a reference
+		// resolves to depends on what was resolved before it (a reference back
+		// to an object being resolved is left as it is, a finished object is
+		// shared): ranging over the map gave two mutually referring objects a
+		// different shape from run to run.
+		keys := make([]string, 0, len(v))
+		for key := range v {
+			keys = append(keys, key)
+		}
+		sort.Strings(keys)
 		result := make(core.Dict)
-		for key, val := range v {
-			resolvedVal, err := r.resolveDeep(val, done, active, depth+1)
+		for _, key := range keys {
+			resolvedVal, err := r.resolveDeep(v[key], done, active, depth+1)
 			if err != nil {
 				return nil, err
 			}
